@@ -12,6 +12,7 @@ import (
 	"sync"
 
 	"rare/pkg/expressions/funclib"
+	"rare/pkg/expressions/stdmath"
 )
 
 // C19, round 4 (Lean side: Drv/C19.lean):
@@ -24,6 +25,11 @@ import (
 //	    (`kfmath_history_independent`, `kfmath_concurrent_independent`): it predicts every value of the
 //	    sequence from its context alone; a concurrent answer that differs from the sequential one is reported
 //	    as CONCURRENT-DIFF.
+//	docop <b|u> <operator hex>
+//	    an operator listed in the tables of docs/usage/math.md must be an operator: `2 <op> 3` (binary), `<op>2` /
+//	    `<op>(2)` (unary) compiles.  The model side answers the SPECIFICATION's constant `ok accept`
+//	    (`docs_operators_are_the_tables` is the proof-side tie), so a documented operator the code rejects is a
+//	    failing input.
 //	docex <formula hex> <expected hex> <keys>
 //	    an example of docs/usage/math.md (`{! formula} => expected` under the documented binding): the real
 //	    code's output must be the documented one; the model answers the same way.
@@ -76,6 +82,22 @@ func c19HistRun(f []string) (string, bool) {
 			return "CONCURRENT-DIFF " + strings.ReplaceAll(diff, " ", "_"), true
 		}
 		return fmt.Sprintf("ok errs=%s vals=%s", errsStr(errs), strings.Join(vals, ",")), true
+	case "docop":
+		if len(f) != 3 {
+			return "bad-args", true
+		}
+		op := string(UnHex(f[2]))
+		formula := "2 " + op + " 3"
+		if f[1] == "u" {
+			formula = op + "(2)"
+			if len(op) == 1 {
+				formula = op + "2"
+			}
+		}
+		if _, err := stdmath.Compile(formula); err != nil {
+			return "ok reject", true
+		}
+		return "ok accept", true
 	case "docex":
 		if len(f) != 4 {
 			return "bad-args", true
@@ -111,8 +133,20 @@ func c19DocCases() []string {
 	bindRe := regexp.MustCompile("If `([A-Za-z][A-Za-z0-9]*)=([^`]*)`")
 	var out []string
 	keys := "."
+	section := ""
+	span := regexp.MustCompile("`([^`]*)`")
 	for _, line := range strings.Split(string(raw), "\n") {
 		t := strings.TrimSpace(line)
+		if strings.HasPrefix(t, "#") {
+			section = strings.TrimSpace(strings.TrimLeft(t, "#"))
+		}
+		if strings.HasPrefix(t, "|") && !strings.HasPrefix(t, "|--") && !strings.HasPrefix(t, "| Type") && (section == "Binary" || section == "Unary") {
+			for _, sp := range span.FindAllStringSubmatch(t, -1) {
+				for _, op := range strings.Fields(sp[1]) {
+					out = append(out, fmt.Sprintf("docop %s %s", strings.ToLower(section[:1]), HexS(op)))
+				}
+			}
+		}
 		if m := bindRe.FindStringSubmatch(t); m != nil {
 			keys = HexListS([]string{m[1], m[2]})
 		}
